@@ -142,9 +142,14 @@ def _run_ch_once(mod, fn, timeout, per_path_timeout):
             MessageType.EXEC_ERR,
             MessageType.POST_ERR,
         ):
-            verdict = "refuted"
             cex = _parse_call(m.message, fn.__name__)
             detail = m.message[:600]
+            if cex is None or "NotDeterministic" in m.message or "CrossHairInternal" in m.message:
+                # an engine-level failure (no concrete call to replay) is not a counterexample
+                verdict = "inconclusive"
+                detail = "engine error: " + detail
+                continue
+            verdict = "refuted"
             break
         else:
             detail = f"{m.state.name}: {m.message[:300]}"
